@@ -5,9 +5,10 @@
 # so several seeds (and ordinary checks) can run at the same time.
 set -u
 NAME=$1; P=$2; TIER=${3:-quick}
-D=/verif/seeded/$NAME
+V=$(cd "$(dirname "$0")/.." && pwd)
+D=$V/seeded/$NAME
 WT=/tmp/seedwt_${NAME}_$P; SO=/tmp/seedout_${NAME}_$P
-cd /verif
+cd $V
 git -C /repo worktree remove --force $WT >/dev/null 2>&1; rm -rf $WT $SO
 git -C /repo worktree add --detach $WT HEAD >/dev/null 2>&1 || { echo "cannot create worktree"; exit 9; }
 if ! git -C $WT apply $D/patch.diff; then
